@@ -1,6 +1,11 @@
 use std::cell::UnsafeCell;
 use std::ptr;
+#[cfg(not(may_verif))]
 use std::sync::atomic::{AtomicPtr, Ordering};
+#[cfg(may_verif)]
+use crate::verif::atomic::AtomicPtr;
+#[cfg(may_verif)]
+use std::sync::atomic::Ordering;
 
 use crossbeam_utils::{Backoff, CachePadded};
 
@@ -41,6 +46,8 @@ impl<T> Queue<T> {
     }
 
     pub fn push(&self, t: T) {
+        #[cfg(may_verif)]
+        let _vb = crate::verif::Bracket::new();
         unsafe {
             let node = Node::new(Some(t));
             let prev = self.head.swap(node, Ordering::AcqRel);
@@ -58,6 +65,8 @@ impl<T> Queue<T> {
 
     /// Pops some data from this queue.
     pub fn pop(&self) -> Option<T> {
+        #[cfg(may_verif)]
+        let _vb = crate::verif::Bracket::new();
         unsafe {
             let tail = *self.tail.get();
 
@@ -74,6 +83,8 @@ impl<T> Queue<T> {
                 if !next.is_null() {
                     break;
                 }
+                #[cfg(may_verif)]
+                crate::verif::spin_hint();
                 backoff.snooze();
             }
             // value is not an atomic operation it may read out old shadow value
